@@ -27,8 +27,11 @@ RULES = {
     "R6": "SparseDrugCombo target = logit(clip(obs, 0.01, 0.99))",
     "R7": "row-class predicate table: single-agent sites use count(control) = arity-1, combination sites use = 0",
     "R8": "nothing reachable from a model's ingestion loads the screen-level single_treatment_effects table (computed from masked rows too)",
+    "R9": "subset_observed / subset_unobserved are the views of exactly the (un)observed rows, None only when there are none",
+    "R10": "view discipline: ScreenSubset / Plate read the parent's per-experiment attributes only through their selection and never delegate a question to the parent screen",
+    "R11": "every row number stored in the sampler's per-sample / per-treatment index lists derives from its row count at that moment",
 }
-MIN = {"R1": 1, "R2": 3, "R3": 1, "R4": 2, "R5": 3, "R6": 1, "R7": 2, "R8": 1}
+MIN = {"R1": 1, "R2": 3, "R3": 1, "R4": 2, "R5": 3, "R6": 1, "R7": 2, "R8": 1, "R9": 2, "R10": 15, "R11": 3}
 TRUSTED = ["resolved call graph is an over-approximation of the dynamic one (typed resolution + name-CHA fallback + "
            "all overriding subclasses); classes chosen by name on the command line are subclasses of the declared bases",
            "numpy comparison semantics: `x >= 0` is False for NaN"]
@@ -735,7 +738,72 @@ def run(ctx):
     r8(ctx)
 
 
-RULE_FUNCS = [r1, r2, r3, r4, r5, r6, r7_c04, r8]
+def row_numbers_from_row_count(ctx, rule="R11"):
+    """The legacy sampler keeps, per sample / treatment, the list of *row numbers* of its observations (`cline_idxs`, `dd1_idxs`, ..);
+    every block update reads y, Mu and the design through them.  Whatever spelling ingests the rows (one `_update` per row, a bulk
+    method), a number stored in such a list must be derived from the sampler's row count at that moment (`self.n_obs()` / `len(self.y)`):
+    a number that comes from an `enumerate` / `range` over the new block alone restarts at 0 with every call, and the second batch is
+    indexed onto the rows of the first."""
+    R = ctx.R
+    cq = "batchie.models.sparse_combo.LegacySparseDrugComboImpl"
+    n_sites = 0
+    for q, f in sorted(R.funcs.items()):
+        if f.class_q != cq:
+            continue
+        defs = {}
+        for n in walk_own(f.node):
+            if isinstance(n, ast.Assign):
+                for t in n.targets:
+                    for x in ast.walk(t):
+                        if isinstance(x, ast.Name):
+                            defs.setdefault(x.id, []).append(n.value)
+            elif isinstance(n, ast.AugAssign) and isinstance(n.target, ast.Name):
+                defs.setdefault(n.target.id, []).append(n.value)
+            elif isinstance(n, (ast.For, ast.comprehension)):
+                for x in ast.walk(n.target):
+                    if isinstance(x, ast.Name):
+                        defs.setdefault(x.id, []).append(n.iter)
+
+        def based(e, seen):
+            t = U(e).replace(" ", "")
+            if "self.n_obs()" in t or any(f"len(self.{a})" in t for a in ("y", "cline", "dd1", "dd2")):
+                return True
+            for nm in names_in(e):
+                if nm in seen:
+                    continue
+                seen.add(nm)
+                if any(based(d, seen) for d in defs.get(nm, [])):
+                    return True
+            return False
+        for c in calls(f.node, tail="append"):
+            tgt = c.func.value
+            if not (isinstance(tgt, ast.Subscript) and isinstance(tgt.value, ast.Attribute) and U(tgt.value.value) == "self" and tgt.value.attr.endswith("_idxs") and len(c.args) == 1):
+                continue
+            n_sites += 1
+            ctx.check(rule, f"{f.site()}::{tgt.value.attr}.append({U(c.args[0])[:30]})", based(c.args[0], set()),
+                      "the stored row number derives from the sampler's row count",
+                      f"`self.{tgt.value.attr}[..].append({U(c.args[0])})`: the row number does not derive from the sampler's row count (self.n_obs() / len(self.y)) - "
+                      f"it restarts with every call, so a second batch of observations is indexed onto the rows of the first")
+    ctx.need(n_sites >= 3, f"row numbers: only {n_sites} stores into the sampler's row-index lists found")
+
+
+def r11(ctx):
+    row_numbers_from_row_count(ctx, "R11")
+
+
+def r9(ctx):
+    """training consumes screen.subset_observed(): exactly the observed rows when there are any (C14.R3's clause run here)"""
+    from . import C14
+    ctx.borrow(C14.observed_subsets, "R9")
+
+
+def r10(ctx):
+    """a view hands out the parent's per-experiment data at its selected rows only: a model fed a view of observed rows cannot read
+    masked rows through it"""
+    common.view_discipline(ctx, "R10")
+
+
+RULE_FUNCS = [r1, r2, r3, r4, r5, r6, r7_c04, r8, r9, r10, r11]
 
 
 def _rep(a, b):
